@@ -284,6 +284,14 @@ pub mod verif_access {
             keystream_pos: 64,
         }
     }
+    /// Builds a cipher from raw parts.
+    pub fn from_parts(state: [u32; 16], keystream: [u8; 64], keystream_pos: usize) -> Salsa20Cipher {
+        Salsa20Cipher {
+            state,
+            keystream,
+            keystream_pos,
+        }
+    }
     /// Calls the private `generate_keystream`.
     pub fn generate_keystream(c: &mut Salsa20Cipher) {
         c.generate_keystream();
